@@ -73,7 +73,7 @@ def c10send (args : List String) : String :=
   | _ => "bad-op"
 
 /-! ## c19: `c19 <op> <op> ...` with ops `c1 c0 f<w> r<w> a x`;
-output per `a`/`x`: `<sorted yielded ids>;<registry size after>` joined by `|` -/
+output per `a`/`x`: `<sorted yielded ids>;<registry size after>`, per probe `d`: `D<registry size>,<registered dead>`, joined by `|` -/
 def insertSorted (x : Nat) : List Nat → List Nat
   | [] => [x]
   | y :: ys => if x ≤ y then x :: y :: ys else y :: insertSorted x ys
@@ -91,19 +91,22 @@ def c19Op (t : String) : Option Op :=
 
 open PwVerif.Registry in
 def c19 (args : List String) : String :=
-  match args.mapM c19Op with
-  | none => "bad-op"
-  | some ops =>
-    let rec go (s : St) (ops : List Op) (acc : List String) : List String :=
-      match ops with
+  -- `d` is a probe, not an operation: registry size and number of registered dead workers, unpruned
+  if !(args.all fun t => t == "d" || (c19Op t).isSome) then "bad-op" else
+    let rec go (s : St) (ts : List String) (acc : List String) : List String :=
+      match ts with
       | [] => acc.reverse
-      | op :: rest =>
-        let (s', out) := step s op
-        match op with
-        | .active | .autoclose =>
-          go s' rest ((",".intercalate ((sortNats out).map toString) ++ ";" ++ toString s'.reg.length) :: acc)
-        | _ => go s' rest acc
-    "|".intercalate (go {} ops [])
+      | t :: rest =>
+        if t == "d" then go s rest (("D" ++ toString s.reg.length ++ "," ++ toString (dead s)) :: acc) else
+        match c19Op t with
+        | none => acc.reverse
+        | some op =>
+          let (s', out) := step s op
+          match op with
+          | .active | .autoclose =>
+            go s' rest ((",".intercalate ((sortNats out).map toString) ++ ";" ++ toString s'.reg.length) :: acc)
+          | _ => go s' rest acc
+    "|".intercalate (go {} args [])
 
 /-! ## frames: `frames <graph> <patches>`
 graph  ::= `a` | `r` | `p(` graph,* `)` | `o<id>(` <key>`:`graph,* `)`
